@@ -397,6 +397,9 @@ pub struct OpenPlan {
     pub initial: Vec<(K, VSpec)>,
     /// per opener: (yields before open, yields while holding, commit while holding, inject a failing commit)
     pub openers: Vec<(u32, u32, bool, bool)>,
+    /// per opener: further attempts after a refusal
+    #[serde(default)]
+    pub retries: Vec<u32>,
 }
 
 static ALIVE: AtomicI64 = AtomicI64::new(0);
@@ -429,10 +432,16 @@ fn openrace<H: HashAlgorithm + Send + Sync + 'static>(scen: &Scenario, dir: Path
     let recs: Arc<Mutex<Vec<OpenRec>>> = Arc::new(Mutex::new(Vec::new()));
     let mut hs = Vec::new();
     for (i, (pre, hold, commit, fail)) in plan.openers.iter().cloned().enumerate() {
+        let extra: u32 = plan.retries.get(i).cloned().unwrap_or(0);
         let (dir, opts, rep2, disk2, recs, shared_state) = (dir.clone(), scen.opts.clone(), rep.clone(), disk.clone(), recs.clone(), shared_state.clone());
         hs.push(shuttle::thread::Builder::new().name(format!("opener-{i}")).spawn(move || {
             let task = format!("opener-{i}");
             for _ in 0..pre { shuttle::thread::yield_now(); }
+            // a refused opener tries again a few times (a contender spinning on open while the
+            // holder drops its handle is how a lock whose identity changes gets exposed)
+            for attempt in 0..=extra {
+            let task = task.clone();
+            if attempt > 0 { for _ in 0..(1 + (attempt * 3 + i as u32) % 7) { shuttle::thread::yield_now(); } }
             let seq_inv = disk2.seq_now();
             let t0 = disk2.trace_len();
             let r = Nomt::<H>::open(to_options(&dir, &opts));
@@ -442,6 +451,7 @@ fn openrace<H: HashAlgorithm + Send + Sync + 'static>(scen: &Scenario, dir: Path
                     // a refused open must not have modified any file: mutating events issued by this task
                     let own: Vec<String> = disk2.trace().into_iter().skip(t0).filter(|e| e.task == task && !matches!(e.kind, 'L' | 'U')).map(|e| format!("{}:{}", e.site, e.file)).collect();
                     recs.lock().unwrap().push(OpenRec { task, seq_inv, seq_ret, ok: false, drop_ret_seq: 0, own_mutations: own });
+                    continue;
                 }
                 Ok(n) => {
                     let alive = ALIVE.fetch_add(1, Ordering::SeqCst) + 1;
@@ -472,7 +482,9 @@ fn openrace<H: HashAlgorithm + Send + Sync + 'static>(scen: &Scenario, dir: Path
                     drop(n);
                     let drop_ret_seq = disk2.seq_now();
                     recs.lock().unwrap().push(OpenRec { task, seq_inv, seq_ret, ok: true, drop_ret_seq, own_mutations: vec![] });
+                    break;
                 }
+            }
             }
         }).unwrap());
     }
